@@ -326,6 +326,8 @@ func (w *aWorld) apkBytes(s aServe) []byte {
 // indexChecksum: what the repository index records for package i in this variant (raw bytes)
 func (w *aWorld) indexChecksum(i int, s aServe) []byte {
 	switch s.Index {
+	case "none", "q2":
+		return []byte{}
 	case "zero":
 		return make([]byte, 20)
 	case "served":
@@ -402,7 +404,16 @@ func (w *aWorld) repo(v []aServe) *SRepo {
 			r.Files[fmt.Sprintf("x86_64/%s-%s.apk", p.Name, p.Version)] = b
 		}
 		sp := SPkg{Name: p.Name, Version: p.Version, Origin: p.Name, Desc: p.Alts[0].Desc, License: "MIT", BuildTime: 1600000000}
-		idx.WriteString(indexEntry(sp, "x86_64", builtApk{bytes: b, checksum: w.indexChecksum(i, s), instSize: 1}))
+		entry := indexEntry(sp, "x86_64", builtApk{bytes: b, checksum: w.indexChecksum(i, s), instSize: 1})
+		switch s.Index {
+		case "none":
+			// no C: line at all: the handle records no checksum
+			entry = entry[strings.IndexByte(entry, '\n')+1:]
+		case "q2":
+			// a C: value that is not a Q1 SHA-1 (the index parser ignores it): again no usable checksum
+			entry = "C:Q2" + base64.StdEncoding.EncodeToString(sha1Bytes(b)) + entry[strings.IndexByte(entry, '\n'):]
+		}
+		idx.WriteString(entry)
 	}
 	body := idx.String()
 	indexTar := tarBytes(true, func(tw *tar.Writer) {
@@ -546,3 +557,5 @@ func cacheListing(root string) string {
 	sort.Strings(names)
 	return strings.Join(names, ",")
 }
+
+func sha1Bytes(b []byte) []byte { x := sha1.Sum(b); return x[:] } //nolint:gosec
